@@ -77,6 +77,11 @@ claim('C18', 'enumeration of kets / UPB kinds and sizes / POVMs / Chebyshev base
       'separable thresholds; closed forms are checked for exact zeros, finiteness, continuity, monotonicity and against independent literature formulas / generic two-qubit routines.',
       'trusted: vf/ref.py partial_transpose; Horodecki matrices and Terhal-Vollbrecht / Wei-Goldbart formulas re-implemented from the papers cited in the docstrings')
 
+claim('C19', 'complete enumeration per shipped code of all Pauli errors below the distance x all code-word pairs, all stabilizer circuits vs strings read from the source AST, error-set generators vs brute force over 4^n, enumerators vs sum rules + own enumerator; Hypothesis for parser strings and KL-loss on arbitrary subspaces',
+      'Knill-Laflamme is decided completely for the seven shipped codes (eight in thorough) with errors applied by an independent numpy routine; stabilizer circuits are compared with the listed strings on random states; '
+      'error sets for all n<=6, d<=4 (asymmetric n<=5, six Z-weights) are compared as sets with brute-force filters.',
+      'trusted: vf apply_pauli (axis flips and sign masks); the listed strings are taken from the AST of the source (comparison skipped if the pattern disappears)')
+
 NOT_YET = 'check not built yet in this session (work in progress; see DESIGN.md section 4 for the planned generator and oracle)'
 
 ALL = [f'C{i:02d}' for i in range(1, 21)]
